@@ -170,12 +170,35 @@ def mul(a, b):
     return a * b
 
 
+_QR = {}
+
+
+def register_qr(term, q, n, r):
+    """remember that `term` was built as q*n + r (mixed-radix flat index).  floordiv / mod by the
+    same n then return q / r under the guard 0 <= r < n (sound unconditionally: the guard is part
+    of the term), which spares the solver the non-linear division reasoning."""
+    if isinstance(term, z3.ExprRef) and isinstance(n, z3.ExprRef):
+        _QR[term.get_id()] = (term, q, n, r)
+
+
+def _qr_lookup(a, b):
+    if isinstance(a, z3.ExprRef) and isinstance(b, z3.ExprRef):
+        e = _QR.get(a.get_id())
+        if e is not None and e[0].eq(a):
+            return e
+    return None
+
+
 def floordiv(a, b):
     """Python // on integers. z3's div agrees with floor division for positive divisors; callers
     are responsible for the side obligation divisor > 0 (the interpreter emits it)."""
     if any_sym(a, b):
         za, zb = to_z3(a), to_z3(b)
         if z3.is_int(za) and z3.is_int(zb):
+            e = _qr_lookup(za, zb)
+            if e is not None:
+                _, q, n, r = e
+                return z3.If(z3.And(to_z3(r) >= 0, to_z3(r) < n, n == zb), to_z3(q), za / zb)
             return za / zb
         raise TypeError("symbolic floor division of reals")
     return a // b
@@ -183,7 +206,12 @@ def floordiv(a, b):
 
 def mod(a, b):
     if any_sym(a, b):
-        return to_z3(a) % to_z3(b)
+        za, zb = to_z3(a), to_z3(b)
+        e = _qr_lookup(za, zb)
+        if e is not None:
+            _, q, n, r = e
+            return z3.If(z3.And(to_z3(r) >= 0, to_z3(r) < n, n == zb), to_z3(r), za % zb)
+        return za % zb
     return a % b
 
 
